@@ -107,11 +107,11 @@ void dsim_scenario() {
             auto start_waiter = [&](int i) {
                 switch (wk[i]) {
                 case 0: case 1: break; // handled by caller (needs join)
-                case 2: { dsim::cell_set(STARTED + i, 1); try { f.wait(); } catch (...) {} observe_and_release(f, i); break; }
+                case 2: { dsim::cell_set(STARTED + i, 1); try { if (i & 1) (void)*f; else f.wait(); } catch (...) {} observe_and_release(f, i); break; }    // wait() or the dereference ("acts as wait()")
                 case 3: {   // sync(), or the blocking form of has_value(): the awaitable bool converted in ordinary code waits for the resolution
                     dsim::cell_set(STARTED + i, 1);
                     if (i & 1) {
-                        bool hv = f.has_value();
+                        bool hv = i == 1 ? static_cast<bool>(f.has_value()) : i == 3 ? static_cast<bool>(f) : !!f;     // has_value(), operator bool, operator!
                         observe_and_release(f, i);
                         if (hv != (dsim::cell_get(EXPECT_KIND) != K_NOVALUE)) dsim::fail("C02.incomplete_result", "blocking has_value() gave %d", (int)hv);
                     } else { f.sync(); observe_and_release(f, i); }
